@@ -58,7 +58,14 @@ ProxySign == /\ Step /\ mem # "none"
              /\ out' = IF mem = "nonhex" /\ ~Redact THEN out \cup {"connLog"} ELSE out
              /\ UNCHANGED <<dirMode, onDisk, mem, statusMsg>>
 
-Next == MkKeyDir \/ AclKeyDir \/ AcquireOk \/ AcquireNonHex \/ AcquireMalformed \/ FetchLocal \/ ClearKey
+\* a reader or writer of the key (request handler whose client went away, task raced against cancellation) is dropped
+\* while its message is queued: the key-keeper actor cannot deliver its reply and logs what it could not deliver --
+\* the key's guid in the code; a text embedding the whole key record in a design that formats the value itself
+UndeliveredReply == /\ Step /\ mem # "none"
+                    /\ out' = IF Redact THEN out ELSE out \cup {"agentLog", "console"}
+                    /\ UNCHANGED <<dirMode, onDisk, mem, statusMsg>>
+
+Next == UndeliveredReply \/ MkKeyDir \/ AclKeyDir \/ AcquireOk \/ AcquireNonHex \/ AcquireMalformed \/ FetchLocal \/ ClearKey
         \/ PublishStatus \/ ProvisionQuery \/ ProxySign
 Spec == Init /\ [][Next]_vars
 
